@@ -3,6 +3,8 @@ package main
 import (
 	"go/constant"
 	"go/token"
+	"go/types"
+	"math/big"
 
 	"golang.org/x/tools/go/ssa"
 )
@@ -201,13 +203,17 @@ func sccpRun(fn *ssa.Function, seedVals map[ssa.Value]constant.Value, cells []sc
 						}
 					case token.ADD, token.SUB, token.MUL:
 						if a.val.Kind() == constant.Int && bb.val.Kind() == constant.Int {
-							vals[x] = latConst(constant.BinaryOp(a.val, x.Op, bb.val))
+							vals[x] = latConst(wrapInt(constant.BinaryOp(a.val, x.Op, bb.val), x.Type()))
 						}
 					}
 				}
 			case *ssa.Convert:
 				if _, seeded := seedVals[x]; !seeded {
-					vals[x] = valOf(x.X)
+					v := valOf(x.X)
+					if v.kind == 1 && v.val.Kind() == constant.Int {
+						v = latConst(wrapInt(v.val, x.Type()))
+					}
+					vals[x] = v
 				}
 			case *ssa.ChangeType:
 				if _, seeded := seedVals[x]; !seeded {
@@ -318,4 +324,35 @@ func sccpComparable(a, b constant.Value) bool {
 		return true
 	}
 	return a.Kind() == b.Kind() && (a.Kind() == constant.Bool || a.Kind() == constant.String)
+}
+
+// wrapInt reduces an integer constant to the range of the (fixed-size integer) type t, the way Go's
+// arithmetic wraps around; other types leave the value as it is.
+func wrapInt(v constant.Value, t types.Type) constant.Value {
+	b, ok := t.Underlying().(*types.Basic)
+	if !ok || b.Info()&types.IsInteger == 0 || v.Kind() != constant.Int {
+		return v
+	}
+	bits := uint(64)
+	switch b.Kind() {
+	case types.Int8, types.Uint8:
+		bits = 8
+	case types.Int16, types.Uint16:
+		bits = 16
+	case types.Int32, types.Uint32:
+		bits = 32
+	}
+	n, ok := new(big.Int).SetString(v.ExactString(), 10)
+	if !ok {
+		return v
+	}
+	mod := new(big.Int).Lsh(big.NewInt(1), bits)
+	n.Mod(n, mod)
+	if b.Info()&types.IsUnsigned == 0 {
+		half := new(big.Int).Lsh(big.NewInt(1), bits-1)
+		if n.Cmp(half) >= 0 {
+			n.Sub(n, mod)
+		}
+	}
+	return constant.MakeFromLiteral(n.String(), token.INT, 0)
 }
